@@ -42,6 +42,7 @@ type Program struct {
 	writeSetsNoFV map[*ssa.Function]*FrameSet
 	srcCache   map[string][]byte
 	concTypes  []types.Type
+	SkippedSpecs []string
 }
 
 // goEnv: the environment for `go list` on /repo (offline, go1.26.8, module mode).
